@@ -93,7 +93,7 @@ with parse_map (fuel : nat) (cnt : N) (bs : bytes) (acc : list (value * value)) 
       else '(k, r) <~ parse f bs ;; '(v, r') <~ parse f r ;; parse_map f (cnt - 1) r' ((k, v) :: acc)
   end.
 
-Definition parse1 (bs : bytes) : option (value * bytes) := parse (S (S (List.length bs))) bs.
+Definition parse1 (bs : bytes) : option (value * bytes) := parse (S (S (3 * List.length bs))) bs.
 
 (* ---------- protocol shapes ---------- *)
 
@@ -282,3 +282,62 @@ Definition show_smsg (m : smsg) : bytes :=
 (* handshake and ack shapes *)
 Definition shape_ack (v : value) : option bytes :=
   match v with VMap [(VStr k, VStr a)] => if bytes_eqb k (str "ack") then Some a else None | _ => None end.
+
+(* HELO / PING / PONG (Forward Protocol v1, "Handshake Phase") *)
+Definition binstr (v : value) : option bytes := match v with VBin s | VStr s => Some s | _ => None end.
+Definition vstr (v : value) : option bytes := match v with VStr s => Some s | _ => None end.
+
+Definition lookup_opt (k : bytes) (l : list (value * value)) : option value :=
+  match find (fun kv => match fst kv with VStr k' => bytes_eqb k k' | _ => false end) l with
+  | Some kv => Some (snd kv) | None => None end.
+
+Definition show_helo (v : value) : option bytes :=
+  match v with
+  | VArr [VStr ty; VMap l] =>
+      if bytes_eqb ty (str "HELO") then
+        match lookup_opt (str "nonce") l, lookup_opt (str "auth") l, lookup_opt (str "keepalive") l with
+        | Some n, Some a, Some (VBool k) =>
+            match binstr n, binstr a with
+            | Some n', Some a' =>
+                if len l =? 3 then Some (str "helo(nonce=" ++ hex n' ++ str ",auth=" ++ hex a' ++ str ",keepalive=" ++ show_bool k ++ str ")") else None
+            | _, _ => None end
+        | _, _, _ => None end
+      else None
+  | _ => None
+  end.
+
+Definition show_ping (v : value) : option bytes :=
+  match v with
+  | VArr [VStr ty; VStr host; salt; VStr digest; VStr user; VStr pass] =>
+      match binstr salt with
+      | Some s =>
+          if bytes_eqb ty (str "PING") then
+            Some (str "ping(host=" ++ hex host ++ str ",salt=" ++ hex s ++ str ",digest=" ++ hex digest
+                  ++ str ",user=" ++ hex user ++ str ",pass=" ++ hex pass ++ str ")")
+          else None
+      | None => None end
+  | _ => None
+  end.
+
+Definition show_pong (v : value) : option bytes :=
+  match v with
+  | VArr [VStr ty; VBool a; VStr reason; VStr host; VStr digest] =>
+      if bytes_eqb ty (str "PONG") then
+        Some (str "pong(auth=" ++ show_bool a ++ str ",reason=" ++ hex reason ++ str ",host=" ++ hex host
+              ++ str ",digest=" ++ hex digest ++ str ")")
+      else None
+  | _ => None
+  end.
+
+Definition show_ack (v : value) : option bytes :=
+  match shape_ack v with Some a => Some (str "ack(" ++ hex a ++ str ")") | None => None end.
+
+(* the instant a Message-mode message carries: whole seconds, or seconds*10^9 + nanoseconds *)
+Definition stamp_of (m : smsg) : option (bool * Z) :=
+  match m with
+  | SMessage _ (TInt z) _ _ => Some (false, z)
+  | SMessage _ (TEvent s n) _ _ => Some (true, Z.of_N (s * 1000000000 + n))
+  | _ => None
+  end.
+Definition unstamp (m : smsg) : smsg :=
+  match m with SMessage tag _ r o => SMessage tag (TInt 0) r o | m => m end.
